@@ -35,9 +35,9 @@ type tierCfg struct {
 
 func cfg(tier string) tierCfg {
 	if tier == "thorough" {
-		return tierCfg{gen: 12000, corpus: 382 * 4, probes: 13 * 6, endless: 300, l2: 3000, budget: 200000, exhaustMax: 1500, sample: 400}
+		return tierCfg{gen: 12000, corpus: 382 * 4, probes: 21 * 6, endless: 300, l2: 3000, budget: 200000, exhaustMax: 1500, sample: 400}
 	}
-	return tierCfg{gen: 260, corpus: 120, probes: 13 * 2, endless: 30, l2: 48, budget: 20000, exhaustMax: 400, sample: 200}
+	return tierCfg{gen: 260, corpus: 120, probes: 21 * 2, endless: 30, l2: 48, budget: 20000, exhaustMax: 400, sample: 200}
 }
 
 func (d *D) Count(tier string) int {
@@ -53,9 +53,9 @@ func (d *D) Base(idx int, ctx *core.Ctx) (*core.Scenario, *work.Probe) {
 	r := core.ItemRNG(ctx.Seed, "C14", idx)
 	switch {
 	case idx < c.probes:
-		n := probeNs[(idx/13)%len(probeNs)]
+		n := probeNs[(idx/21)%len(probeNs)]
 		ps := work.Probes(n)
-		p := ps[idx%13]
+		p := ps[idx%len(ps)]
 		sc := &core.Scenario{Property: "C14", Seed: ctx.Seed, Index: idx, Level: "L1", Kind: "probe:" + p.Name, Program: p.Program,
 			Events: p.Events, RandSeed: 1, NoTestSummary: true, ReplayExact: true}
 		sc.Schedule.Map.Default.Kind = "asc"
